@@ -1,6 +1,6 @@
 SPECIFICATION Spec
 CONSTANTS
-  MaxSlot = 7
+  MaxSlot = 3
   MaxVer = 2
   MaxReorgs = 2
   MaxCrashes = 0
@@ -8,8 +8,8 @@ CONSTANTS
   Interleave = FALSE
   Cfgs <- MCCfgsOne
   OraclesFor <- MCOraclesA
-  MaxAccts = 0
-  AnswersFor <- AllAnswers
-  Deviation = {}
+  MaxAccts = 1
+  AnswersFor <- MCAnswers
+  Deviation = {"LeakPropLock"}
 INVARIANTS TypeOK JobTimeRight JobCoversExactly NoSlotTwice OneJobPerDutySlot OnlyStrictlyLaterOnStart SyncWindowRight EpochTickOnce NoFutureDutyUnscheduled NoStaleJob ReorgActedOn RefreshCompletes
 CHECK_DEADLOCK FALSE
